@@ -66,18 +66,25 @@ def do_import(seed_dir, prop, m, needs):
 def do_run(cases):
     man = json.load(open(os.path.join(VERIF, "MANIFEST.json")))
     claimed = [c["property_id"] for c in man["checks"]]
-    cases = cases or sorted(os.listdir(SEEDED))
+    cases = cases or sorted(c for c in os.listdir(SEEDED) if os.path.isdir(os.path.join(SEEDED, c)))
     rows = []
+    results = {}
     for case in cases:
         cdir = os.path.join(SEEDED, case)
         if not os.path.isdir(cdir):
             continue
         meta = json.load(open(os.path.join(cdir, "meta.json")))
+        if meta.get("verified_status", "valid") != "valid":
+            print(f"{case:12s} RETIRED ({meta['verified_status']})")
+            results[case] = {"property": meta["property"], "status": "RETIRED: " + meta["verified_status"], "fired": [], "errors": [], "own_rules": [], "needs": meta["needs_to_manifest"]}
+            continue
         d, wt = scratch_repo()
         try:
             rc, out = sh(f"git apply {cdir}/patch.diff", cwd=wt)
             if rc:
                 rows.append((case, meta["property"], "PATCH DOES NOT APPLY", ""))
+                print(f"{case:12s} PATCH DOES NOT APPLY")
+                results[case] = {"property": meta["property"], "status": "PATCH DOES NOT APPLY", "fired": [], "errors": [], "own_rules": [], "needs": meta["needs_to_manifest"]}
                 continue
             fired, errs = [], []
             procs = {}
@@ -98,8 +105,14 @@ def do_run(cases):
             print(f"{case:12s} {rows[-1][2]:18s} fired={rows[-1][3]}")
             for l in detail:
                 print(l)
+            own_rules = sorted({l.split("rule=")[1].split(" ")[0] for l in detail if l.strip().startswith(meta["property"] + ":") and "rule=" in l})
+            results[case] = {"property": meta["property"], "status": rows[-1][2], "fired": fired, "errors": errs, "own_rules": own_rules, "needs": meta["needs_to_manifest"]}
         finally:
             drop(d)
+    resf = os.path.join(SEEDED, "RESULTS.json")
+    allres = json.load(open(resf)) if os.path.exists(resf) else {}
+    allres.update(results)
+    json.dump(allres, open(resf, "w"), indent=1, sort_keys=True)
     return rows
 
 
@@ -154,8 +167,45 @@ def do_run_neutral(cases):
             drop(d)
 
 
+def do_verify(cases):
+    """Re-confirm every kept seed against the current /repo HEAD: patch applies, suite green, demo fails."""
+    base = subprocess.run("git -C /repo rev-parse --short HEAD", shell=True, capture_output=True, text=True).stdout.strip()
+    for case in cases or sorted(c for c in os.listdir(SEEDED) if os.path.isdir(os.path.join(SEEDED, c))):
+        cdir = os.path.join(SEEDED, case)
+        meta = json.load(open(os.path.join(cdir, "meta.json")))
+        d, wt = scratch_repo()
+        try:
+            shutil.copy(os.path.join(cdir, "demo.py"), os.path.join(wt, "demo_seed.py"))
+            rc0, _ = sh(f"{PY} demo_seed.py", cwd=wt)
+            rc, out = sh(f"git apply {cdir}/patch.diff", cwd=wt)
+            if rc:
+                status = "patch does not apply"
+            else:
+                rcs, outs = sh(f"{PY} -m pytest -q -p no:cacheprovider --timeout=900 tests", cwd=wt)
+                tail = outs.strip().splitlines()[-1]
+                rcd, _ = sh(f"{PY} demo_seed.py", cwd=wt)
+                if rc0 != 0:
+                    status = "demo fails on the clean tree"
+                elif rcs or "266 passed" not in tail:
+                    status = f"suite not green: {tail}"
+                elif rcd == 0:
+                    status = "demo passes with the patch (no longer breaking)"
+                else:
+                    status = "valid"
+            meta["verified_against"] = base
+            meta["verified_status"] = status
+            json.dump(meta, open(os.path.join(cdir, "meta.json"), "w"), indent=1)
+            if status != "valid":
+                print(f"{case:12s} {status}")
+        finally:
+            drop(d)
+    print("verify done against", base)
+
+
 if __name__ == "__main__":
-    if sys.argv[1] == "import-neutral":
+    if sys.argv[1] == "verify":
+        do_verify(sys.argv[2:])
+    elif sys.argv[1] == "import-neutral":
         do_import_neutral(sys.argv[2], sys.argv[3])
     elif sys.argv[1] == "run-neutral":
         do_run_neutral(sys.argv[2:])
